@@ -72,6 +72,16 @@ def gen_cases(tier, seed):
         cases.append(("r%d" % i, [], [ev_tokens(e) for e in out]))
         dist["len_hist"][len(out)] = dist["len_hist"].get(len(out), 0) + 1
     dist["random"] = nrand
+    # the same accounting with the acknowledgements arriving as `ack <id> <node>` commands (the Acknowledge handler of
+    # process_request) at a node that is primary, secondary or still starting up (an election registers its candidate
+    # message while the node is StartingUp and waits for these acks)
+    kl = {"quick": 3, "thorough": 4, "search": 2}[tier]
+    k = 0
+    for role in ("P", "S", "U"):
+        for L in range(1, kl + 1):
+            for seq in itertools.product(al, repeat=L):
+                cases.append(("k%d" % k, ["cmd", role], [ev_tokens(e) for e in seq])); k += 1
+    dist["ack_commands"] = k
     return cases, dist
 
 
@@ -121,12 +131,12 @@ def oracle(case, io, mo):
         if n != len(dump):
             fails.append(("count-mismatch", "step %d" % i))
         if kind == "ack" and op[1] not in prev_dump:
-            if res != "0" or dump != prev_dump:
+            if res not in ("0", "?") or dump != prev_dump:
                 fails.append(("unknown-ack-changed", "step %d" % i))
         if wf:
             if set(dump.keys()) != set(spec.keys()):
                 fails.append(("pending-set", "step %d: pending %s but nodes still owing acks %s" % (i, sorted(dump), spec)))
-            if kind == "ack":
+            if kind == "ack" and res != "?":
                 expect = "1" if spec != prev_spec else "0"
                 if res != expect:
                     fails.append(("ack-result", "step %d: ack returned %s, spec %s" % (i, res, expect)))
@@ -135,4 +145,7 @@ def oracle(case, io, mo):
 
 
 def nontrivial(case, io):
+    if case[0].startswith("k"):
+        ns = [int(m.group(3)) for m in (line_re.match(l) for l in io["obs"]) if m]
+        return any(b < a for a, b in zip(ns, ns[1:]))
     return any(l.startswith("ack 1") for l in io["obs"])
